@@ -307,7 +307,51 @@ def module_object_entry_point(ctx, n):
             scan.cleanup(base)
 
 
+def deep_nesting_stream(ctx, n):
+    """A chain of 22-30 nested packages with a module at the bottom and one half-way: every directory and file is a module,
+    however deep - from the root and from a directory half-way down."""
+    import shutil
+    from pytestarch import get_evaluable_architecture
+    for it in range(n):
+        rng = ctx.rng
+        depth = rng.choice([22, 25, 30])
+        d = common.scratch_dir()
+        try:
+            comps = ["p%02d" % i for i in range(1, depth + 1)]
+            cur = d / "proj"
+            cur.mkdir()
+            names = ["proj"]
+            for i, c in enumerate(comps):
+                cur = cur / c
+                cur.mkdir()
+                names.append(names[-1] + "." + c)
+                if i == depth // 2:
+                    (cur / "mid.py").write_text("import proj\n")
+                    mid_dir, mid_name = cur, names[-1]
+            (cur / "leaf.py").write_text("from " + mid_name + " import mid\n")
+            exp = set(names) | {names[-1] + ".leaf", mid_name + ".mid"}
+            for rp, mpp, what in ((d / "proj", d / "proj", "root"), (d / "proj", mid_dir, "half-way down")):
+                try:
+                    arch = get_evaluable_architecture(str(rp), str(mpp))
+                    ns, es = rules.observe(arch, [], [])
+                    got = ("OK", set(ns), set(es))
+                except Exception as e:  # noqa: BLE001
+                    got = ("ERR", type(e).__name__ + ": " + str(e)[:200])
+                ctx.evaluations += 1
+                ctx.stat("deeply_nested_chain")
+                want = exp if what == "root" else {x for x in exp if x.startswith(mid_name + ".") or mid_name.startswith(x + ".") or x == mid_name}
+                if got[0] != "OK":
+                    ctx.violation(dict(depth=depth, module_path=what, error=got[1]), f"scan of a chain of {depth} nested packages failed: {got[1]}", {"kind": "scan_error"})
+                elif got[1] != want or (names[-1] + ".leaf", mid_name + ".mid") not in got[2]:
+                    ctx.violation(dict(depth=depth, module_path=what, missing=sorted(want - got[1])[:6], surplus=sorted(got[1] - want)[:6], leaf_import_present=(names[-1] + ".leaf", mid_name + ".mid") in got[2]),
+                                  f"a chain of {depth} nested packages scanned from {what}: modules differ from the directory tree / the import written at the bottom is lost", {"kind": "modules"})
+            ctx.mark_nontrivial(("deep", depth))
+        finally:
+            shutil.rmtree(d, ignore_errors=True)
+
+
 def run(ctx: Ctx):
+    deep_nesting_stream(ctx, 3 if ctx.quick else 20)
     n = 240 if ctx.quick else 6000
     per = 15
     jobs = [(ctx.rng.randrange(1 << 30), per) for _ in range(n // per)]
